@@ -260,6 +260,27 @@ fn cases(thorough: bool) -> Vec<Case> {
     for (i, src) in crate::c17::sources_for_c02().into_iter().enumerate() {
         out.push(Case { family: "error_reports", cell: format!("C17 program {}", i), source: src, derived_receiver: false, raw: true });
     }
+    // every program of the other properties' generators: whatever a program means, running it never panics
+    // (stack discipline of loop exits through try statements, closures, classes, iteration)
+    {
+        use crate::ast::print_program;
+        let quick_stride = |n: usize| if thorough { 1 } else { n };
+        let mut k = 0usize;
+        let mut add = |family: &'static str, srcs: Vec<String>, stride: usize, out: &mut Vec<Case>| {
+            for (i, src) in srcs.into_iter().enumerate() {
+                if i % stride == 0 {
+                    out.push(Case { family, cell: format!("{} {}", family, k), source: src, derived_receiver: false, raw: true });
+                    k += 1;
+                }
+            }
+        };
+        add("loop_exits_at_script_level_repeated", crate::c08::script_level_repeated(), 1, &mut out);
+        add("programs_of_C08", crate::c08::cases_for_c04(false).iter().map(|c| print_program(&c.prog, false)).collect(), 1, &mut out);
+        add("programs_of_C06", crate::c06::cases_for_c04(false).iter().map(|c| print_program(&c.prog, false)).collect(), 1, &mut out);
+        add("programs_of_C18", crate::c18::cases_for_c04(false).iter().map(|c| print_program(&c.prog, false)).collect(), 1, &mut out);
+        add("programs_of_C07", crate::c07::cases_for_c04(false).iter().map(|c| print_program(&c.prog, false)).collect(), quick_stride(5), &mut out);
+        add("programs_of_C05", crate::c05::cases_for_c04(false).iter().map(|c| print_program(&c.prog, false)).collect(), quick_stride(5), &mut out);
+    }
     // self-containing data, borrow conflicts, mutation during iteration
     for (cell, body) in [
         ("print self-containing vec", "var a = []; a.push(a); print(a);"),
@@ -598,7 +619,7 @@ pub fn run(ctx: &Ctx) -> Report {
     report.cov("traces_validated_against_impl", json!(acc.evaluations));
     report.cov("distinct_nontrivial", json!(acc.cells.len()));
     report.cov("exhaustive", json!(true));
-    report.cov("rule", json!("native sweep: every built-in method of every value class (and the class-side methods of String, Fiber, Error, StopIter) on a receiver of the right class and on an instance of a class derived from it, with every argument tuple of the native's arity over a 46-value adversarial pool (43 values plus the receiver itself, a tuple and a vec holding it) (quick tier: a third of the two-argument tuples on derived receivers), plus one argument fewer and one more; every native reached through super from an instance method and from a static method of a class derived from the built-in class; operator sweep: 20 unary constructs x every pool value, 6 binary constructs x every ordered pair, slices over 8x8 bounds; resource grid: recursion depth {1..70} x frame width {1..250} and wide argument lists, the operand stack swept across its limit one slot at a time (3 052 programs: recursion depth 30/31/32 with 2 x 254 pending literal elements per level and 0..762 more at the bottom, also inside a fiber; each must complete or report a catchable `Stack overflow.`, monotonically), nesting ladders to depth 10^4 for nine data shapes on the checked runner and to 2x10^5 / 10^6 on the optimised runner on a thread with an ordinary 8 MiB stack (tracing, printing, comparing, hashing and dropping data that deep), every uncaught-error program of C17's generator (the error report must not panic), 23 self-reference / mutation-during-iteration / fiber misuse programs. oracle: the run ends Ok or with a reported error; never a panic, crash or hang; a failing built-in call wrapped in try/catch reaches the handler with an instance of an error class. distinct = distinct (construct, argument-kind tuple) cells."));
+    report.cov("rule", json!("native sweep: every built-in method of every value class (and the class-side methods of String, Fiber, Error, StopIter) on a receiver of the right class and on an instance of a class derived from it, with every argument tuple of the native's arity over a 46-value adversarial pool (43 values plus the receiver itself, a tuple and a vec holding it) (quick tier: a third of the two-argument tuples on derived receivers), plus one argument fewer and one more; every native reached through super from an instance method and from a static method of a class derived from the built-in class; operator sweep: 20 unary constructs x every pool value, 6 binary constructs x every ordered pair, slices over 8x8 bounds; resource grid: recursion depth {1..70} x frame width {1..250} and wide argument lists, the operand stack swept across its limit one slot at a time (3 052 programs: recursion depth 30/31/32 with 2 x 254 pending literal elements per level and 0..762 more at the bottom, also inside a fiber; each must complete or report a catchable `Stack overflow.`, monotonically), nesting ladders to depth 10^4 for nine data shapes on the checked runner and to 2x10^5 / 10^6 on the optimised runner on a thread with an ordinary 8 MiB stack (tracing, printing, comparing, hashing and dropping data that deep), every uncaught-error program of C17's generator (the error report must not panic), every program of the C08, C06 and C18 generators and every fifth one of the C07 and C05 generators at their quick bounds (about 52k programs; all of them in the thorough tier: whatever a program means, running it does not panic), the loop-exit shapes of C08 (a loop around two try-like constructs, a loop around a try-like construct holding an inner loop followed by a second one, every leaf that leaves or crosses them) at script level inside a loop that repeats them forty times (a slot popped too many or too few per exit runs off the operand stack), 23 self-reference / mutation-during-iteration / fiber misuse programs. oracle: the run ends Ok or with a reported error; never a panic, crash or hang; a failing built-in call wrapped in try/catch reaches the handler with an instance of an error class. distinct = distinct (construct, argument-kind tuple) cells."));
     report.cov("bounds", json!({"pool_values": pool().len(), "cases": n}));
     report.cov("by_family", json!(acc.by_family));
     report.cov("outcome_histogram", json!(acc.outcomes));
